@@ -36,6 +36,7 @@ from pdfminer.pdfexceptions import (
 from pdfminer.pdfparser import PDFParser, PDFStreamParser, PDFSyntaxError
 from pdfminer.pdftypes import (
     DecipherCallable,
+    PDFObjRef,
     PDFStream,
     decipher_all,
     dict_value,
@@ -898,18 +899,25 @@ class PDFDocument:
             raise PDFNoOutlines
 
         def search(entry: object, level: int) -> Iterator[PDFDocument.OutlineType]:
-            entry = dict_value(entry)
-            if "Title" in entry:
-                if "A" in entry or "Dest" in entry:
-                    title = decode_text(str_value(entry["Title"]))
-                    dest = entry.get("Dest")
-                    action = entry.get("A")
-                    se = entry.get("SE")
-                    yield (level, title, dest, action, se)
-            if "First" in entry and "Last" in entry:
-                yield from search(entry["First"], level + 1)
-            if "Next" in entry:
-                yield from search(entry["Next"], level)
+            # Siblings are walked iteratively (a long chain of /Next items must
+            # not exhaust the recursion limit); only /First descends.
+            seen = set()
+            while entry is not None:
+                if isinstance(entry, PDFObjRef):
+                    if entry.objid in seen:
+                        break  # /Next chain loops back
+                    seen.add(entry.objid)
+                entry = dict_value(entry)
+                if "Title" in entry:
+                    if "A" in entry or "Dest" in entry:
+                        title = decode_text(str_value(entry["Title"]))
+                        dest = entry.get("Dest")
+                        action = entry.get("A")
+                        se = entry.get("SE")
+                        yield (level, title, dest, action, se)
+                if "First" in entry and "Last" in entry:
+                    yield from search(entry["First"], level + 1)
+                entry = entry.get("Next")
 
         return search(self.catalog["Outlines"], 0)
 
